@@ -120,7 +120,7 @@ Section ProvFacts.
 End ProvFacts.
 
 (** ** Concrete runs (harness instance: values are interned JSON texts, 0 = a value json.dumps
-    rejects, e.g. a numpy array or numpy integer) *)
+    rejects even with provenance._json_default, e.g. an arbitrary object) *)
 Definition ex_generic : @generic Z := mkGeneric 11%Z 12%Z 13%Z 14%Z 15%Z.
 
 Lemma prov_example :
@@ -133,7 +133,8 @@ Lemma prov_example :
      = Some [[("command", 99%Z)]].
 Proof. split; reflexivity. Qed.
 
-(** K4: recording on, one unserialisable value (population_size an ndarray): the call raises *)
+(** recording on, one value that cannot be dumped at all: the call raises (before the repair of
+    K4 numpy arrays / numpy scalars were such values; now they are converted) *)
 Lemma prov_unserialisable_example :
   run_date_prov (Some true) 1%Z (mkGeneric 11%Z 12%Z 13%Z 14%Z 0%Z) [21; 22; 23; 24; 25; 26]%Z [] = None.
 Proof. reflexivity. Qed.
